@@ -1,53 +1,77 @@
-(* C11/Tokens.v — protocolSupportEnumeration as the document WRITES it (round 6).
+(* C11/Tokens.v — protocolSupportEnumeration as the document WRITES it (round 6; follows 9be4974e).
 
    The attribute is an xs:list of anyURI (saml-schema-metadata-2.0.xsd, anyURIListType): its items are separated
    by XML white space - blank, tab, line feed, carriage return.  A role descriptor supports SAML 2.0 iff one of
    the ITEMS is urn:oasis:names:tc:SAML:2.0:protocol: a longer URI that merely contains that name (as prefix,
    suffix or in the middle), or the name in another letter case, is another URI.
 
-   The correspondence cases carry the attribute value as the XML parser reports it (a string; [rp]); the model's
-   role record holds value.split(" "), which is what do_entity_descriptor computes ([rp] computes it with
-   Str.split_on, the function Source2.protos_wf is stated with).  Spec.saml2 reads r_protos as the list of
-   items.  The two readings differ exactly when a piece between two blanks still contains a tab, a line feed or
-   a carriage return (possible only through a character reference: the XML parser turns literal ones into
-   blanks): [canon_hist] re-splits every piece at these characters, the property is stated on the re-split
-   history ([spec_x]), and the code conforms on every history whose pieces are free of them ([clean_hist]) -
-   finding C11-F9 is the rest ([tokens_refuted]). *)
+   The correspondence cases carry the attribute value as the XML parser reports it (a string; [rp]); [rp] gives the
+   role record the PIECES value.strip().split(" ") (mdie.to_dict strips; the blank-only split is what
+   do_entity_descriptor did before 9be4974e).  A role record with pieces L stands for the value join " " L
+   (= the stripped value, Str.join_split; the encoding of Source2.enc_role).
+   The code now (9be4974e) splits the value with str.split(): [canon_role] replaces the pieces by
+   [items (join " " L)] = Py2.split_ws_go, the function the translator maps str.split() to.  It splits at the ASCII
+   white space 9-13, 28-32 and drops empty fields.  NOT covered: str.split() also splits at non-ASCII spaces (U+0085,
+   U+00A0, U+1680, U+2000-200A, ...), which are legal in XML and are NOT separators of an xs:list; the generator writes
+   ASCII values only and of the ASCII white space only blank / tab / LF / CR (11, 12, 28-31 are not XML characters).
+   The property is stated on the re-split history ([spec_x]); the model of the code now is [run_now] (the token-list
+   model on the re-split history), the code before the commit is [run_v0] (on the pieces): [store_conforms_items]
+   holds for every history, [items_v0_refuted] is finding C11-F9 (fixed), [store_conforms_items_v0_clean] says the old
+   code was right on every history whose pieces are items already ([clean_hist]). *)
 From Coq Require Import String List Bool ZArith Ascii.
-From Verif Require Import Base.Str C11.Model C11.Dec C11.Spec C11.Proofs C11.Sim.
+From Verif Require Import Base.Str Base.Py2 C11.Model C11.Dec C11.Spec C11.Proofs C11.Sim.
 Import ListNotations.
+Open Scope list_scope.
 Open Scope string_scope.
+
+(* ---------------------------------------------------------------- str.split() *)
+Definition items (s : string) : list string := split_ws_go None s.
+Lemma app_assoc_s (a b c : string) : ((a ++ b) ++ c = a ++ (b ++ c))%string.
+Proof. induction a as [|x a IH]; cbn; [reflexivity|]. rewrite IH. reflexivity. Qed.
+Lemma app_nil_s (a : string) : (a ++ "")%string = a.
+Proof. induction a as [|x a IH]; cbn; [reflexivity|]. rewrite IH. reflexivity. Qed.
+Fixpoint wsfree (s : string) : bool := match s with EmptyString => true | String c r => negb (is_ws c) && wsfree r end.
+Definition ostr (o : option string) : string := match o with Some x => x | None => EmptyString end.
+Lemma go_word w : forall cur rest, wsfree w = true ->
+  split_ws_go cur (w ++ rest) = split_ws_go (match w with EmptyString => cur | _ => Some (ostr cur ++ w) end) rest.
+Proof.
+  induction w as [|c w IH]; intros cur rest H; [reflexivity|].
+  cbn [wsfree] in H. apply andb_true_iff in H. destruct H as [Hc Hw]. apply negb_true_iff in Hc.
+  cbn [append split_ws_go]. rewrite Hc. rewrite (IH _ rest Hw).
+  destruct w as [|d w']; destruct cur as [x|]; cbn [ostr append]; try reflexivity.
+  - rewrite app_assoc_s. reflexivity.
+Qed.
+Definition good (w : string) : bool := wsfree w && negb (String.eqb w "").
+Lemma items_join l : forallb good l = true -> split_ws_go None (join " " l) = l.
+Proof.
+  induction l as [|w l IH]; intros H; [reflexivity|].
+  cbn [forallb] in H. apply andb_true_iff in H. destruct H as [Hw Hl]. unfold good in Hw. apply andb_true_iff in Hw.
+  destruct Hw as [Hf Hne]. destruct w as [|c w]; [discriminate|].
+  destruct l as [|w2 l].
+  - cbn [join]. rewrite <- (app_nil_s (String c w)) at 1. rewrite (go_word _ None "" Hf). reflexivity.
+  - change (join " " (String c w :: w2 :: l)) with (String c w ++ " " ++ join " " (w2 :: l)).
+    rewrite (go_word _ None _ Hf). cbn [ostr append]. change (" " ++ join " " (w2 :: l)) with (String " "%char (join " " (w2 :: l))).
+    cbn [split_ws_go]. change (is_ws " "%char) with true. cbv iota. rewrite (IH Hl). reflexivity.
+Qed.
+Lemma go_good s : forall cur, match cur with Some x => good x = true | None => True end -> forallb good (split_ws_go cur s) = true.
+Proof.
+  induction s as [|c s IH]; intros cur Hc; cbn [split_ws_go].
+  - destruct cur; cbn [forallb]; [rewrite Hc; reflexivity|reflexivity].
+  - destruct (is_ws c) eqn:E.
+    + destruct cur; cbn [forallb]; [rewrite Hc; apply IH; exact I|apply IH; exact I].
+    + apply IH. destruct cur as [x|].
+      * unfold good in *. apply andb_true_iff in Hc. destruct Hc as [Hf _]. apply andb_true_iff. split.
+        { clear -Hf E. induction x as [|d x IHx]; cbn [append wsfree] in *; [rewrite E; reflexivity|].
+          apply andb_true_iff in Hf. destruct Hf as [H1 H2]. rewrite H1, (IHx H2). reflexivity. }
+        { destruct x; reflexivity. }
+      * unfold good. cbn [wsfree]. rewrite E. reflexivity.
+Qed.
+Lemma items_idem s : items (join " " (items s)) = items s.
+Proof. apply items_join. apply go_good. exact I. Qed.
 Open Scope list_scope.
 
-(* tab, line feed, carriage return: the XML white space characters other than the blank *)
-Definition is_ws3 (c : ascii) : bool :=
-  Ascii.eqb c "009"%char || Ascii.eqb c "010"%char || Ascii.eqb c "013"%char.
-
-(* split at every one of them (empty fields kept: they are not URIs and never equal a protocol name) *)
-Fixpoint split_ws3 (s : string) : list string :=
-  match s with
-  | EmptyString => [EmptyString]
-  | String c r =>
-      if is_ws3 c then EmptyString :: split_ws3 r
-      else match split_ws3 r with
-           | [] => [String c EmptyString]
-           | f :: fs => String c f :: fs
-           end
-  end.
-
-Fixpoint clean_str (s : string) : bool :=
-  match s with EmptyString => true | String c r => negb (is_ws3 c) && clean_str r end.
-
-Lemma split_ws3_clean s : clean_str s = true -> split_ws3 s = [s].
-Proof.
-  induction s as [|c r IH]; cbn [clean_str split_ws3]; [reflexivity|].
-  intros H. apply andb_true_iff in H. destruct H as [Hc Hr].
-  destruct (is_ws3 c); [discriminate|]. rewrite (IH Hr). reflexivity.
-Qed.
-
-(* mdie.to_dict (_eval) strips every string value before do_entity_descriptor sees it.  Python's str.strip() removes
-   more characters than these four (vertical tab, form feed, the C1 / Unicode spaces); the generator writes no others *)
-Definition is_ws4 (c : ascii) : bool := Ascii.eqb c " "%char || is_ws3 c.
+(* mdie.to_dict (_eval) strips every string value before do_entity_descriptor sees it (ASCII white space here) *)
+Definition is_ws4 (c : ascii) : bool := is_ws c.
 Fixpoint lstrip (s : string) : string :=
   match s with String c r => if is_ws4 c then lstrip r else s | EmptyString => EmptyString end.
 Fixpoint rstrip (s : string) : string :=
@@ -61,17 +85,20 @@ Fixpoint rstrip (s : string) : string :=
 Definition strip_ws (s : string) : string := rstrip (lstrip s).
 
 (* the role descriptor as the case files write it: kind, the attribute value as the XML parser reports it, the rest;
-   r_protos = to_dict's value .split(" ") *)
+   r_protos = the PIECES to_dict's value .split(" ") *)
 Definition rp (kind pse : string) (svcs : list svc) (keys : list keyd) (acs : list acsv) : role :=
   Role kind (split_on " "%char (strip_ws pse)) svcs keys acs.
 Lemma rp_protos kind pse svcs keys acs : r_protos (rp kind pse svcs keys acs) = split_on " "%char (strip_ws pse).
 Proof. reflexivity. Qed.
+(* the pieces stand for the stripped value *)
+Lemma rp_value kind pse svcs keys acs : join " " (r_protos (rp kind pse svcs keys acs)) = strip_ws pse.
+Proof. apply (join_split " "%char). Qed.
 Example strip_ws_ex : strip_ws (String "010"%char " a b  " ++ String "009"%char EmptyString) = "a b".
 Proof. reflexivity. Qed.
 
-(* ---------------------------------------------------------------- re-splitting a history *)
+(* ---------------------------------------------------------------- re-splitting a history: what 9be4974e reads *)
 Definition canon_role (r : role) : role :=
-  Role (r_kind r) (flat_map split_ws3 (r_protos r)) (r_svcs r) (r_keys r) (r_acs r).
+  Role (r_kind r) (items (join " " (r_protos r))) (r_svcs r) (r_keys r) (r_acs r).
 Definition canon_ent (e : ent) : ent :=
   Ent (e_id e) (e_vu e) (map canon_role (e_roles e)) (e_affil e) (e_attrs e) (e_regs e).
 Definition canon_payload (p : payload) : payload :=
@@ -91,8 +118,8 @@ Definition canon_op (o : op) : op :=
   end.
 Definition canon_hist (h : list op) : list op := map canon_op h.
 
-(* no piece of any enumeration of the history contains a tab, a line feed or a carriage return *)
-Definition clean_role (r : role) : bool := forallb clean_str (r_protos r).
+(* every piece of every enumeration of the history is an item already: not empty, no white space inside *)
+Definition clean_role (r : role) : bool := forallb good (r_protos r).
 Definition clean_ent (e : ent) : bool := forallb clean_role (e_roles e).
 Definition clean_payload (p : payload) : bool :=
   match p with
@@ -116,15 +143,13 @@ Proof.
   rewrite (H a (or_introl eq_refl)), IH; [reflexivity|]. intros x Hx. apply H. right. exact Hx.
 Qed.
 
-Lemma flat_split_clean l : forallb clean_str l = true -> flat_map split_ws3 l = l.
-Proof.
-  induction l as [|a l IH]; cbn [forallb flat_map]; intros H; [reflexivity|].
-  apply andb_true_iff in H. destruct H as [Ha Hl]. rewrite (split_ws3_clean a Ha), (IH Hl). reflexivity.
-Qed.
-
 Lemma canon_role_clean r : clean_role r = true -> canon_role r = r.
-Proof. intros H. unfold canon_role. rewrite (flat_split_clean _ H). destruct r; reflexivity. Qed.
-
+Proof. intros H. unfold canon_role, items. rewrite (items_join _ H). destruct r; reflexivity. Qed.
+(* what is split is split: re-splitting twice changes nothing, and the re-split roles are clean *)
+Lemma canon_role_idem r : canon_role (canon_role r) = canon_role r.
+Proof. unfold canon_role. cbn [r_kind r_protos r_svcs r_keys r_acs]. rewrite items_idem. reflexivity. Qed.
+Lemma canon_role_is_clean r : clean_role (canon_role r) = true.
+Proof. unfold clean_role, canon_role, items. cbn [r_protos]. apply go_good. exact I. Qed.
 Lemma canon_ent_clean e : clean_ent e = true -> canon_ent e = e.
 Proof.
   intros H. unfold canon_ent. rewrite map_id_in; [destruct e; reflexivity|].
@@ -163,35 +188,27 @@ Proof.
   unfold clean_hist in H. rewrite forallb_forall in H. apply H. exact Ho.
 Qed.
 
-(* re-splitting does not change what is already split *)
-Lemma split_ws3_clean_fields s : forallb clean_str (split_ws3 s) = true.
-Proof.
-  induction s as [|c r IH]; cbn [split_ws3]; [reflexivity|].
-  destruct (is_ws3 c) eqn:Hc; [cbn [forallb clean_str]; exact IH|].
-  destruct (split_ws3 r) as [|f fs]; [cbn [forallb clean_str]; rewrite Hc; reflexivity|].
-  cbn [forallb clean_str] in *. rewrite Hc. exact IH.
-Qed.
-
 (* ---------------------------------------------------------------- the property on items *)
 Definition spec_x (w : rworld) (h : list op) (obs : list answer) : Prop := spec w (canon_hist h) obs.
 Definition spec_xb (w : rworld) (h : list op) (obs : list answer) : bool := spec_b w (canon_hist h) obs.
 Lemma spec_xb_iff w h obs : spec_xb w h obs = true <-> spec_x w h obs.
 Proof. apply spec_b_iff. Qed.
 
-(* queries and ticks are untouched: the answers line up with the same operations *)
-Theorem store_conforms_items now h : clean_hist h = true -> spec_x (rinit now) h (run cur (init now) h).
-Proof. intros H. unfold spec_x. rewrite (canon_hist_clean h H). apply model_satisfies_spec. Qed.
+(* the code now (9be4974e): value.split(), then what the token-list model does; before: the pieces *)
+Definition run_now (now : Z) (h : list op) : list answer := run cur (init now) (canon_hist h).
+Definition run_v0 (now : Z) (h : list op) : list answer := run cur (init now) h.
+
+Theorem store_conforms_items now h : spec_x (rinit now) h (run_now now h).
+Proof. unfold spec_x, run_now. apply model_satisfies_spec. Qed.
+
+Theorem store_conforms_items_v0_clean now h : clean_hist h = true -> spec_x (rinit now) h (run_v0 now h).
+Proof. intros H. unfold spec_x, run_v0. rewrite (canon_hist_clean h H). apply model_satisfies_spec. Qed.
 
 (* a role supports SAML 2.0 by its ITEMS *)
-Lemma canon_supports r :
-  supports_saml2 (canon_role r) = existsb (fun p => mem NS_SAML2P (split_ws3 p)) (r_protos r).
-Proof.
-  unfold supports_saml2, canon_role. cbn [r_protos]. induction (r_protos r) as [|p l IH]; [reflexivity|].
-  cbn [flat_map existsb]. rewrite <- IH. clear IH.
-  induction (split_ws3 p) as [|x xs IHx]; [reflexivity|]. cbn [app mem]. rewrite IHx. apply orb_assoc.
-Qed.
+Lemma canon_supports r : supports_saml2 (canon_role r) = mem NS_SAML2P (items (join " " (r_protos r))).
+Proof. reflexivity. Qed.
 
-(* ---------------------------------------------------------------- finding C11-F9 *)
+(* ---------------------------------------------------------------- finding C11-F9 (fixed by 9be4974e) *)
 Definition lf := String "010"%char EmptyString.
 (* an IdP that lists SAML 1.1 and SAML 2.0, the two names separated by a line feed (written &#10;) *)
 Definition tokens_witness : list op :=
@@ -202,22 +219,22 @@ Definition tokens_witness : list op :=
             [Svc N_SSO BINDING_HTTP_REDIRECT "https://a.example.org/sso" None] [] []] false [] []))) Unsigned);
    OQuery (QSso "urn:e1" (Some BINDING_HTTP_REDIRECT))].
 
-Example tokens_witness_out : run cur (init 0) tokens_witness = [AFlag true; AUnknown].
+Example tokens_witness_out_v0 : run_v0 0 tokens_witness = [AFlag true; AUnknown].
+Proof. vm_compute. reflexivity. Qed.
+Example tokens_witness_out :
+  run_now 0 tokens_witness = [AFlag true; ASvcs [Svc N_SSO BINDING_HTTP_REDIRECT "https://a.example.org/sso" None]].
 Proof. vm_compute. reflexivity. Qed.
 Example tokens_witness_wanted :
   spec_xb (rinit 0) tokens_witness
           [AFlag true; ASvcs [Svc N_SSO BINDING_HTTP_REDIRECT "https://a.example.org/sso" None]] = true.
 Proof. vm_compute. reflexivity. Qed.
 
-Theorem tokens_refuted : exists now h, ~ spec_x (rinit now) h (run cur (init now) h).
+Theorem items_v0_refuted : exists now h, ~ spec_x (rinit now) h (run_v0 now h).
 Proof.
   exists 0%Z, tokens_witness. intros H. apply spec_xb_iff in H. vm_compute in H. discriminate.
 Qed.
-
-(* the repaired filter (proposed_fixes/C11-9.diff: value.split()) looks at the items *)
 Example tokens_witness_dirty : clean_hist tokens_witness = false.
 Proof. vm_compute. reflexivity. Qed.
-
 (* ---------------------------------------------------------------- near misses: teeth of the reference *)
 (* an IdP whose enumeration holds a URI that merely CONTAINS the SAML 2.0 name, next to SAML 1.1 *)
 Definition near_miss_history (pse : string) : list op :=
@@ -234,7 +251,7 @@ Definition near_misses : list string :=
    "urn:oasis:names:tc:SAML:2.0:protoco"; (NS_SAML2P ++ NS_SAML2P)%string].
 (* the code serves nothing of such a role, and that is what the reference wants ... *)
 Example near_miss_out :
-  forallb (fun pse => answers_eqb (run cur (init 0) (near_miss_history pse)) [AFlag true; AUnknown; AKeyErr; AKeys []])
+  forallb (fun pse => answers_eqb (run_now 0 (near_miss_history pse)) [AFlag true; AUnknown; AKeyErr; AKeys []])
           near_misses = true.
 Proof. vm_compute. reflexivity. Qed.
 Example near_miss_conforms :
@@ -252,9 +269,11 @@ Example near_miss_teeth_keys :
 Proof. vm_compute. reflexivity. Qed.
 (* several blanks, blanks / line breaks around the list, the name twice: the role is served *)
 Example separators_served :
-  forallb (fun pse => answers_eqb (run cur (init 0) (near_miss_history pse))
+  forallb (fun pse => answers_eqb (run_now 0 (near_miss_history pse))
                         [AFlag true; ASvcs [Svc N_SSO BINDING_HTTP_REDIRECT "https://a.example.org/sso" None];
                          ACerts ["idp"]; AKeys ["urn:e1"]])
           [("urn:oasis:names:tc:SAML:1.1:protocol   " ++ NS_SAML2P)%string; ("  " ++ NS_SAML2P ++ " ")%string;
-           (lf ++ NS_SAML2P ++ lf)%string; (NS_SAML2P ++ " " ++ NS_SAML2P)%string] = true.
+           (lf ++ NS_SAML2P ++ lf)%string; (NS_SAML2P ++ " " ++ NS_SAML2P)%string;
+           ("urn:oasis:names:tc:SAML:1.1:protocol" ++ lf ++ NS_SAML2P)%string;
+           ("urn:oasis:names:tc:SAML:1.0:protocol " ++ String "009"%char NS_SAML2P ++ String "013"%char "urn:x:proto")%string] = true.
 Proof. vm_compute. reflexivity. Qed.
